@@ -378,7 +378,8 @@ def run_multisplice(ctx, case):
         o.viol("splice|control-rejected", "header with blocks %r that all wrap the body's key was rejected: %r" % (kinds_, r))
     # the agreement of the blocks is a property of the header: it holds with MAC checking switched off as well
     try:
-        r = Bec2File.read_file(io.StringIO(L.render_text([], binary)), D, False)
+        # (decryptors handed over as a one-shot iterator here: the parameter is declared Iterable[Encryptor])
+        r = Bec2File.read_file(io.StringIO(L.render_text([], binary)), iter(D), False)
         accepted_nomac = True
     except Exception as e:
         r = e
